@@ -56,10 +56,12 @@ def run(ctx):
     nthm, ndis, _ = vf.check_props(ctx)
     if 'MapRange' in (getattr(ctx, 'coq_log', '') or ''):
         import re as _re
-        allowed = set(_re.findall(r'\("([^"]+)", "([^"]+)", "((?:[^"]|"")*)", (\d+)%N', open(os.path.join(vf.COQ, 'Out', 'MapRange.v')).read()))
-        now = _re.findall(r'\("([^"]+)", "([^"]+)", "((?:[^"]|"")*)", (\d+)%N', open(GENR).read())
-        new = [' '.join(x) for x in now if x not in allowed]
-        ctx.broken.append('coq/Out/MapRange.v (map_range_sites_known_b): the package ranges over a map in a loop that is not one of the classified ones (the visiting order of a Go map changes from run to run): ' + '; '.join(new[:6]))
+        pat = r'\("([^"]+)", "([^"]+)", "((?:[^"]|"")*)", (\d+)%N, "([0-9a-f-]+)"'
+        allowed = set(_re.findall(pat, open(os.path.join(vf.COQ, 'Out', 'MapRange.v')).read()))
+        loops = set(x[:4] for x in allowed)
+        now = _re.findall(pat, open(GENR).read())
+        new = [' '.join(x[:4]) + (' (body changed)' if x[:4] in loops else ' (new loop)') for x in now if x not in allowed]
+        ctx.broken.append('coq/Out/MapRange.v (map_range_sites_known_b): the package ranges over a map in a loop that is not one of the loops that were read and classified, or whose body was edited since (the visiting order of a Go map changes from run to run): ' + '; '.join(new[:6]))
     ambient_broken = 'Ambient' in (getattr(ctx, 'coq_log', '') or '')
     if ambient_broken:
         okg, logg = vf.coq_make(['Gen/GenAmbient.vo'])
